@@ -63,7 +63,7 @@ fn c16_square_usteps() {
     assert!(sq.ubackward(Color::White).to_int() ^ 56 == Square::new(s ^ 56).ubackward(Color::Black).to_int());
 }
 
-// @ob id=O16.13 props=C16,C07 tier=quick kind=proof fn="File::from_index,File::left,File::right,File::to_index,Rank::from_index,Rank::up,Rank::down,Rank::to_index" desc="from_index(i) has index i mod 8 for EVERY usize (no panic, the unreachable arm is unreachable); left/right/up/down step by one modulo 8 without overflow"
+// @ob id=O16.13 props=C16 also=C07 tier=quick kind=proof fn="File::from_index,File::left,File::right,File::to_index,Rank::from_index,Rank::up,Rank::down,Rank::to_index" desc="from_index(i) has index i mod 8 for EVERY usize (no panic, the unreachable arm is unreachable); left/right/up/down step by one modulo 8 without overflow"
 #[kani::proof]
 fn c16_file_rank() {
     let i: usize = kani::any();
